@@ -98,7 +98,8 @@ def binop(op, a, b):
     if op == "-":
         if ka == "list":
             if kb == "null":
-                raise RefError()
+                # [] - NULL is [], [1] - NULL an error in the implementation; the statement fixes neither
+                raise Unspecified("list - NULL")
             if kb == "list":
                 drop = b[1]
             elif kb in ("set", "map", "obj"):
